@@ -347,7 +347,9 @@ class Client:
         self.rx_log = []        # server messages delivered to this client, in order
         self.closed_when = None
         world.clients.append(self)
-        if not delegated and auto_get:
+        if not delegated and auto_get == "nested":
+            self._auto_get_nested()
+        elif not delegated and auto_get:
             self._auto_get()
 
     def _auto_get(self):
@@ -365,6 +367,31 @@ class Client:
             d.addCallbacks(lambda m: (self.ev.append(("message", m)), next_msg()),
                            lambda f: self.ev.append(("failed:message", f.type.__name__)))
         next_msg()
+
+    def _auto_get_nested(self):
+        """deferred API used the way applications written with callbacks use it: versions and messages are asked for from inside the key callback;
+        firing order is recorded like a delegate's"""
+        def rec(tag, r):
+            self.ev.append((tag,) if tag == "welcome" else ((tag, json.dumps(r, sort_keys=True)) if tag == "versions" else (tag, r)))
+
+        def fail(tag):
+            return lambda f: self.ev.append(("failed:" + tag, f.type.__name__))
+
+        def next_msg():
+            d = self.w.get_message()
+            d.addCallbacks(lambda m: (self.ev.append(("message", m)), next_msg()), fail("message"))
+
+        def on_key(k):
+            rec("key", k)
+            self.w.get_versions().addCallbacks(lambda v: rec("versions", v), fail("versions"))
+            next_msg()
+
+        # (a result asked for late is handed over late - that is the application's doing; so code, key and verifier are asked for up front and only
+        # what the statement orders AFTER them is asked for from inside a callback)
+        self.w.get_welcome().addCallbacks(lambda r: rec("welcome", r), fail("welcome"))
+        self.w.get_code().addCallbacks(lambda c: rec("code", c), fail("code"))
+        self.w.get_unverified_key().addCallbacks(on_key, fail("key"))
+        self.w.get_verifier().addCallbacks(lambda v: rec("verifier", v), fail("verifier"))
 
     def _trace_machines(self):
         """coverage: which (machine, state, input) rows of the Automat tables the runs exercise (Automat's own set_trace hook)"""
